@@ -2,6 +2,7 @@
    (partial: the laws of the random primitives are NumPy's; count-based clauses carry an explicit freshness side condition.) *)
 From Coq Require Import List Arith ZArith QArith Bool.
 From PGA Require Import Sampler.Cst Sampler.CstProofs.
+From PGAgen Require Import ConstGen.
 Import ListNotations.
 Local Open Scope Q_scope.
 
@@ -53,6 +54,12 @@ Proof. exact (per_annotator_length f corpus st r st'). Qed.
 Theorem C19_all_flags_off prec m shift_max kpos ksplit corpus st :
   cst_run prec m shift_max kpos ksplit (mkOpts false false false false false) corpus st = Some (corpus, st).
 Proof. exact (cst_run_all_off prec m shift_max kpos ksplit corpus st). Qed.
+
+(* the class constants of the CURRENT source (regenerated on every run) are non-negative, so the iteration counts int(m * factor * x) and
+   shift_max are non-negative for magnitudes in [0, 1] *)
+Theorem C19_source_factors_nonneg :
+  Qle_bool 0 shift_factor = true /\ Qle_bool 0 split_factor = true /\ Qle_bool 0 false_pos_factor = true.
+Proof. vm_compute. repeat split. Qed.
 
 Example C19_example :
   split_one (1#1000) [mkCU 0 10 0] [CRandint 0; CUniform 4] = Some ([mkCU 0 4 0; mkCU 4 10 0], []) /\
